@@ -2,7 +2,7 @@
    primitives that do not re-enter the evaluator.  Argument signatures are NOT written
    here: they come from Generated/NativeTable_gen.v (extracted from each native's
    validate_args! line), so a change of a signature in the source changes the model. *)
-From PL Require Export Eval.State Data.Reader Data.Printer Data.Equal Data.ArithImpl Generated.NativeTable_gen.
+From PL Require Export Eval.State Data.Reader Data.Printer Data.Equal Data.ArithImpl Generated.NativeTable_gen IO.Stdin.
 From Coq Require Import String.
 Local Open Scope string_scope.
 Local Open Scope list_scope.
@@ -90,24 +90,7 @@ Definition param_names (rest : bool) (params : list val) : list text :=
     end
   else map param_name params.
 
-(* ---- standard input: a fresh BufReader per call of input-file (src/native/io/mod.rs) ---- *)
-Fixpoint split_nl (t acc : text) : option (text * text) :=
-  match t with
-  | [] => None
-  | c :: r => if c =? c_nl then Some (rev (c :: acc), r) else split_nl r (c :: acc)
-  end.
-
-(* read_line through a reader created for this call: chunks are taken one OS read at a time
-   until a newline is seen; what follows the newline in that chunk is dropped with the reader *)
-Fixpoint read_line_fresh (chunks : list text) (acc : text) : text * list text :=
-  match chunks with
-  | [] => (acc, [])
-  | [] :: r => (acc, r)
-  | c :: r => match split_nl c [] with
-              | Some (l, _) => (acc ++ l, r)
-              | None => read_line_fresh r (acc ++ c)
-              end
-  end.
+(* ---- standard input: one buffered reader for the whole session (IO/Stdin.v) ---- *)
 
 (* ---- metadata as a property list (get-metadata) ---- *)
 Definition metadata_plist (m : meta) : val :=
@@ -436,7 +419,7 @@ Definition simple_native (st : state) (name : text) (args : list val) (d : N) : 
     match args with
     | [src] =>
       if is_sym src (s "*stdin*") then
-        let '(line, rest) := read_line_fresh (stdin st) [] in
+        let '(line, rest) := read_line (stdin st) [] in
         let st' := set_stdin st rest in
         match line with
         | [] => Some (st', RSig (make_error "eof" name []))
